@@ -14,6 +14,20 @@ from .loops import LoopMixin
 from .calls import CallMixin
 
 
+ANCHORED = {
+    'mciipm.VbsReader.__next__', 'mciipm.IpmReader.__next__', 'mciipm.IpmParamReader.__next__', 'mciipm.IpmParamReader.__init__',
+    'mciipm.IpmParamReader._get_param_field', 'mciipm.Unblock1014.read', 'mciipm.Block1014.write', 'mciipm.Block1014.finalise',
+    'mciipm.Block1014.seek', 'mciipm.Block1014.close', 'mciipm.VbsWriter.write', 'mciipm.VbsWriter.close', 'mciipm.VbsWriter.write_many',
+    'mciipm.IpmWriter.write', 'mciipm.block_1014', 'mciipm.unblock_1014', 'mciipm.ipm_info', 'mciipm.block_1014_check',
+    'mciipm.bitmap_check', 'mciipm.encoding_check', 'mciipm.vbs_list_to_bytes', 'mciipm.vbs_bytes_to_list',
+    'iso8583.loads', 'iso8583.dumps', 'iso8583._iso8583_to_dict', 'iso8583._dict_to_iso8583', 'iso8583._field_to_iso8583',
+    'iso8583._iso8583_to_field', 'iso8583._pds_to_de', 'iso8583._pds_to_dict', 'iso8583._icc_to_dict', 'iso8583._get_de43_fields',
+    'iso8583._string_to_pytype', 'iso8583._pytype_to_string', 'BitArray.BitArray.tolist', 'BitArray.BitArray.fromlist',
+    'card.mask', 'card.calculate_check_digit', 'card.validate_check_digit', 'card.add_check_digit',
+    'pinblock.calculate_pvv', 'key.calculate_kcv', 'key.encrypt_key',
+}
+
+
 class Event:
     __slots__ = ('kind', 'node', 'data', 'stack', 'seq')
 
@@ -30,6 +44,19 @@ class Event:
     @property
     def func(self):
         return self.stack[-1] if self.stack else None
+
+    def under(self, fname):
+        """The event happened in `fname` itself or in a helper it called (any function that is not itself an anchored
+        function of the analysis), so that extracting or inlining a helper does not move events out of sight."""
+        st = self.stack
+        if not st:
+            return False
+        if st[-1] == fname:
+            return True
+        if fname not in st:
+            return False
+        i = len(st) - 1 - st[::-1].index(fname)
+        return all(f not in ANCHORED for f in st[i + 1:])
 
 
 class Path:
@@ -283,7 +310,7 @@ class Interp(ExprMixin, LoopMixin, CallMixin):
         return o
 
     # ---------------------------------------------------------------- calls
-    def call_function(self, fi, args=(), kwargs=None, self_obj=None, node=None, cls_obj=None):
+    def call_function(self, fi, args=(), kwargs=None, self_obj=None, node=None, cls_obj=None, closure=None):
         kwargs = dict(kwargs or {})
         args = list(args)
         summ = self.an.summaries.get(fi.short)
@@ -298,6 +325,7 @@ class Interp(ExprMixin, LoopMixin, CallMixin):
             raise Abandon(f'recursion at {fi.short}')
         frame = Frame(fi, fi.module, self_obj, fi.cls)
         frame.cls_obj = cls_obj
+        frame.closure = closure
         self._bind_params(fi, frame, args, kwargs, self_obj, cls_obj, node)
         self.frames.append(frame)
         old_stack = self.stack
@@ -779,7 +807,15 @@ class Interp(ExprMixin, LoopMixin, CallMixin):
         raise ContinueSig()
 
     def st_FunctionDef(self, st):
-        self.note_unknown(st, 'nested function definition')
+        from .model import FuncInfo
+        fr = self.frames[-1]
+        outer = fr.fi.qualname if fr.fi is not None else fr.module.name
+        fi = FuncInfo(f'{outer}.<locals>.{st.name}', st, fr.module, None)
+        if any(isinstance(n, (ast.Yield, ast.YieldFrom)) for n in ast.walk(st)):
+            self.note_unknown(st, 'nested generator function')
+        fv = FuncV(fi)
+        fv.closure = fr
+        fr.locals[st.name] = fv
 
     def st_ClassDef(self, st):
         self.note_unknown(st, 'nested class definition')
